@@ -14,6 +14,8 @@ import jv, gen, rt, props, fam
 ALLOWED_AXIOMS = {'functional_extensionality_dep', 'FunctionalExtensionality.functional_extensionality_dep'}
 FORBIDDEN = r'\b(Admitted|admit|Axiom|Axioms|Parameter|Parameters|Conjecture|Hypothesis|Abort All)\b|Unset Guard|bypass_check|type-in-type|impredicative-set|Admit Obligations'
 REPLAYS = os.path.join(jv.CACHE, 'replays')
+# the executable model files the correspondence runs import: always rebuilt if stale, whatever the property
+MODEL_VO = ['theories/Check.vo', 'theories/Parse.vo', 'theories/Macros.vo', 'theories/Async.vo']
 
 
 def audit_sources():
@@ -49,7 +51,7 @@ def check_proofs(pid):
         info['failed'].append('Properties/%s.v missing' % pid)
         return False, info
     info['obligations'] = obls
-    ok, out = jv.build_coq(['Properties/%s.vo' % pid])
+    ok, out = jv.build_coq(['Properties/%s.vo' % pid] + MODEL_VO)
     if not ok:
         info['log'] = out[-3000:]
         m = re.search(r'File "([^"]+)", line (\d+)', out)
@@ -124,7 +126,11 @@ def main():
         return fam.replay(pid, P, args.replay)
 
     # 1. proofs
-    proofs_ok, pinfo = check_proofs(pid)
+    if args.dev_skip_proofs:
+        jv.build_coq(MODEL_VO)
+        proofs_ok, pinfo = True, {'obligations': [], 'discharged': [], 'failed': [], 'assumptions': {}}
+    else:
+        proofs_ok, pinfo = check_proofs(pid)
     if args.dev_skip_proofs:
         proofs_ok = True
         print('DEV MODE: proof obligations skipped - not a valid check run')
